@@ -55,7 +55,7 @@ func extract(a hx.ExtractArgs) error {
 	if err != nil {
 		return err
 	}
-	lf := hx.NewLeanFile("Gms.Generated.C05", src.Path)
+	lf := hx.NewLeanFile("Gms.Generated.C05", src.Path, "memory/table.go")
 	type entry struct {
 		kind  string
 		calls []string
@@ -153,6 +153,16 @@ func extract(a hx.ExtractArgs) error {
 	lf.Raw("def pushNotTable : List (String × List String) := [\n  " + strings.Join(rows, ",\n  ") + "]\n")
 	lf.DefStringList("betweenArgs", betweenArgs)
 	lf.DefString("fallThrough", fall)
+	if err := extractSimplify(src, lf); err != nil {
+		return err
+	}
+	msrc, err := hx.ParseSrc(a.Repo, "memory/table.go")
+	if err != nil {
+		return err
+	}
+	if err := extractIdxIter(msrc, lf); err != nil {
+		return err
+	}
 	return lf.Write(a.Out)
 }
 
@@ -365,6 +375,8 @@ func run(a hx.RunArgs) error {
 	defer out.Close()
 	out.Rule = "unit: random expression trees (depth <=5, NOT-heavy, boolean and non-boolean leaves, opaque +, IS NULL, IN nodes) through the real pushNotFiltersHelper, non-trivial when the tree was rewritten; " +
 		"engine: a generated database, a query Q (depth <=2; a grouped query for HAVING, a cross join for ON) and a predicate p (depth <=3, with subqueries); the five statements Q, WHERE p, WHERE NOT p, WHERE p IS NULL, SELECT p,* are run; " +
+		"index stream: tables with a PRIMARY KEY and/or 1..3-column secondary indexes over a dense value domain {0..3, NULL}, sargable predicates (one leaf per column of an index prefix, OR / NOT / AND of those, non-sargable leaves mixed in) in WHERE (optionally read in forward / reverse index order) and in an inner-join ON with an equality on the index; " +
+		"fold stream: predicates with sub-terms the filter simplification rule rewrites (BETWEEN with literal bounds in every order incl. empty ranges, BETWEEN / comparison naming one column twice, constant comparisons, literal operands of AND / OR / NOT) over nullable operands with a NULL row, under NOT / IS NULL / IS [NOT] TRUE / OR / ON; " +
 		"non-trivial when Q is non-empty and at least two of the three parts are non-empty"
 	r := hx.NewRand(a.Seed).Fork()
 	ctx := sql.NewEmptyContext()
@@ -401,6 +413,7 @@ func run(a hx.RunArgs) error {
 	tlpCase := func(db *sqlgen.Db, parts [5]*sqlgen.Query, tys []sqlgen.Ty, where string) {
 		var sqls, obs []string
 		var feats []string
+		inRegion, regionErr := false, ""
 		for i, q := range parts {
 			t := tys
 			if i == 4 {
@@ -414,11 +427,24 @@ func run(a hx.RunArgs) error {
 			for f := range p.Feats {
 				feats = append(feats, f)
 			}
+			inRegion = inRegion || inFoldFalseJoinRegion(q)
+			if res.Err != nil && strings.Contains(res.Err.Error(), emptyTableReplanErr) && regionErr == "" {
+				regionErr = fmt.Sprintf("statement %d fails with error %d (%v): %s", i, res.Errno, res.Err, text)
+			}
 		}
 		sort.Strings(feats)
 		qs := make([]string, 5)
 		for i, q := range parts {
 			qs[i] = q.Sexp()
+		}
+		if inRegion && regionErr != "" {
+			// known finding: the outcome inside the region is not predictable from the case, the observation
+			// is neutral (the driver re-decides the region on the terms) and the failure goes to the oracle
+			id := out.Case(fmt.Sprintf("(c05 tlp-region %s %s (qs %s) (sql %s))", regionFoldFalseJoin, rn.DbSexp(), strings.Join(qs, " "), strings.Join(sqls, " ")), "region", false)
+			out.Stat("tlp:" + where)
+			out.Stat("tlp:region:" + regionFoldFalseJoin)
+			out.OracleFail(id, regionFoldFalseJoin, regionErr)
+			return
 		}
 		payload := fmt.Sprintf("(c05 tlp %s (qs %s) (feat %s) (sql %s))", rn.DbSexp(), strings.Join(qs, " "), strings.Join(feats, " "), strings.Join(sqls, " "))
 		all, ok0 := multiset(obs[0])
@@ -530,5 +556,15 @@ func run(a hx.RunArgs) error {
 	for k, v := range g.Stats {
 		out.StatN(k, v)
 	}
+
+	// C05-specific streams (streams.go), each on its own generator state so that the streams above are
+	// unchanged: predicates answered through index access paths, and predicates the filter
+	// simplification rule rewrites / constant-folds, over NULL operands
+	nIdx, nFold := 75, 50
+	if a.Thorough {
+		nIdx, nFold = 900, 600
+	}
+	idxStream(hx.NewRand(a.Seed^0x1d8c05a11ce5).Fork().Fork(), out, &rn, tlpCase, nIdx, 8)
+	foldStream(hx.NewRand(a.Seed^0xf01dc05b0b0b0b).Fork().Fork(), out, &rn, tlpCase, nFold, 8)
 	return nil
 }
